@@ -115,11 +115,12 @@ def run(ctx, res):
     for tool, ext in ARCHIVERS.items():
         kinds = [("module", None)] + ([("script", scripts[tool])] if tool in scripts else [])
         for kind, target in kinds:
-            for sub in ("", "sub"):
+            for sub in ("", "sub", "."):
                 d = fresh_world(ctx, tool)
-                if sub:
+                if sub == "sub":
                     os.makedirs(os.path.join(d, sub))
-                arc = os.path.join(sub, f"arc.{ext}") if sub else f"arc.{ext}"
+                # "." : the archive is named by its extension alone (".sd"): still an archive of that type
+                arc = f".{ext}" if sub == "." else (os.path.join(sub, f"arc.{ext}") if sub else f"arc.{ext}")
                 case = {"tool": tool, "invocation": kind, "archive": arc}
                 st.see(dict(case, step="create"))
                 srcs = ["a.bas", "b.dat"] if tool == "moto_tar" else ["--", "a.bas", "b.dat"]
